@@ -112,11 +112,17 @@ func parseRaceLog(text string) []raceReport {
 			return s == "lang.(*Process).Dump" || s == "utils/json.marshal" || strings.HasPrefix(s, "builtins/core/runtime.")
 		}
 		inRuntime := strings.Contains(b, "builtins/core/runtime.cmdRuntime")
+		// `fid-list` walks the process table the same way
+		fidList := func(s string) bool { return strings.HasPrefix(s, "builtins/core/processes.cmdFidList") }
 		switch {
 		case inRuntime && dumpReader(pair[0]):
 			pair[0], pair[1] = "runtime-dump-reader", pair[1]
 		case inRuntime && dumpReader(pair[1]):
 			pair[0], pair[1] = "runtime-dump-reader", pair[0]
+		case fidList(pair[0]):
+			pair[0], pair[1] = "fid-list-reader", pair[1]
+		case fidList(pair[1]):
+			pair[0], pair[1] = "fid-list-reader", pair[0]
 		}
 		out = append(out, raceReport{Key: pair[0] + " | " + pair[1], Sites: [2]string{pair[0], pair[1]}, Text: "WARNING: DATA RACE" + b, Own: harnessOnly[0] && harnessOnly[1]})
 	}
